@@ -129,17 +129,23 @@ example :
 /-- Before the repair, the protobuf writer changed the observable state: a `defaultdict` goal-lanelet table with a missing
     key got that key inserted … -/
 theorem C18_unrepaired_pb_writer_inserts :
-    let s : St := ⟨[], ⟨[], none⟩, [], [⟨900, [true, true], some ⟨.dflt, [(1, [100])]⟩⟩]⟩
+    let s : St := ⟨[], ⟨[], none⟩, [], [{ id := 900, goals := [["position"], ["position"]], tbl := some ⟨.dflt, [(1, [100])]⟩ }]⟩
     (stepPbOld true s).1.obs ≠ s.obs ∧
-    (stepPbOld true s).1.problems = [⟨900, [true, true], some ⟨.dflt, [(1, [100]), (0, [])]⟩⟩] := by decide
+    (stepPbOld true s).1.problems = [{ id := 900, goals := [["position"], ["position"]], tbl := some ⟨.dflt, [(1, [100]), (0, [])]⟩ }] := by decide
 
 /-- … and a plain `dict` with a missing key made it fail with KeyError, where the repaired writer writes the file. -/
 theorem C18_unrepaired_pb_writer_keyerror :
-    let s : St := ⟨[], ⟨[], none⟩, [], [⟨900, [true, true], some ⟨.plain, [(1, [100])]⟩⟩]⟩
+    let s : St := ⟨[], ⟨[], none⟩, [], [{ id := 900, goals := [["position"], ["position"]], tbl := some ⟨.plain, [(1, [100])]⟩ }]⟩
     (stepPbOld true s).2 = .error .key ∧
     (step (.writePb true) s).2 = .ok (.file ⟨[], [(900, [[], [100]])]⟩) := by decide
 
 /-! ### Non-vacuity: a concrete scenario, consistent caches, operations that do fill the hidden caches -/
+
+/-- two consecutive lanelets; obstacle 1 is registered on the second one, obstacle 2 on the first at t = 1; query point 0 and
+    query shape 5 lie on the first -/
+def exampleLanelets : List Lanelet :=
+  [{ id := 100, cells := [0, 5], succ := [101], dynObs := [(1, [2])] },
+   { id := 101, cells := [], pred := [100], staticObs := [1], dynObs := [(1, [7]), (2, [2])] }]
 
 /-- one static obstacle, one dynamic obstacle with a two-state CustomState(position, velocity, velocity_y) trajectory, a
     phantom obstacle, one lanelet containing query point 0, one light, one planning problem with a defaultdict table -/
@@ -150,12 +156,92 @@ def exampleSt : St :=
         (.traj 1 [⟨1, false, [("position", some 10), ("velocity", some 11), ("velocity_y", some 12)]⟩,
                   ⟨2, false, [("position", some 13), ("velocity", some 14), ("velocity_y", some 15)]⟩] 6 none),
       .phantom 3 (.setBased [⟨1, 3, 8⟩])],
-    net := ⟨[⟨100, [0]⟩], some [⟨100, [0]⟩]⟩,
-    lights := [⟨400, [(0, 2), (3, 1)], 1, none⟩],
-    problems := [⟨900, [true, false], some ⟨.dflt, [(1, [100])]⟩⟩] }
+    net := ⟨exampleLanelets, some exampleLanelets⟩,
+    lights := [{ id := 400, es := [(0, 2), (3, 1)], off := 1, cache := none }],
+    problems := [{ id := 900, init := ⟨0, false, [("position", some 20), ("orientation", some 21), ("velocity", some 22)]⟩,
+                   goals := [["position", "velocity"], ["orientation"]], tbl := some ⟨.dflt, [(1, [100])]⟩ }] }
+
+
+/-! ### Operations that used to be the catch-all `reads`: what the frame theorem says about each of them -/
+
+/-- C18 (f) `GoalRegion.is_reached(state)` hands the checked state back with the same attributes in the same order with the
+    same values — for a state passed in from outside as well as for one the scenario owns, for every goal region, whatever
+    the decisions, and also when the check raises.  (The model runs the check on an object store in which the copy made by
+    `_harmonize_state_types` and the rebuilt `CustomState` are separate slots; `(isReached …).1` is slot 0 afterwards.) -/
+theorem C18_is_reached_state_untouched (goals : List (List String)) (st : TState) (dec : List (Res Bool)) :
+    (isReached goals st dec).1 = st := isReached_fst goals st dec
+
+/-- C18 (f') `PlanningProblem.goal_reached(trajectory)`: every state of the trajectory is handed back as it was. -/
+theorem C18_goal_reached_states_untouched (goals : List (List String)) (ss : List TState) (ds : List (List (Res Bool))) :
+    (goalReachedStates goals ss ds).1 = ss := goalReachedStates_fst goals ss ds
+
+/-- C18 (g) goal checks (on own or foreign states), `==`, `hash`, `copy.copy`, `find_lanelet_by_shape`,
+    `Lanelet.dynamic_obstacle_by_time_step` and the merge queries return exactly the state they were given: not even a
+    hidden cache is filled, the obstacle registries of every lanelet are the same lists. -/
+theorem C18_pure_operations_identity (s : St) :
+    (∀ pid loc dec, (step (.reached pid loc dec) s).1 = s) ∧ (∀ pid src decs, (step (.goalReached pid src decs) s).1 = s) ∧
+    (∀ t, (step (.eq t) s).1 = s) ∧ (∀ t, (step (.hash t) s).1 = s) ∧ (∀ t, (step (.shallowCopy t) s).1 = s) ∧
+    (∀ sh, (step (.findShape sh) s).1 = s) ∧ (∀ lid t, (step (.dynByTime lid t) s).1 = s) ∧
+    (∀ lid paths, (step (.mergeFrom lid paths) s).1 = s) :=
+  ⟨fun _ _ _ => step_fst_eq _ s (Or.inl ⟨_, _, _, rfl⟩),
+   fun _ _ _ => step_fst_eq _ s (Or.inr (Or.inl ⟨_, _, _, rfl⟩)),
+   fun _ => rfl, fun _ => rfl, fun _ => rfl, fun _ => rfl,
+   fun _ _ => step_fst_eq _ s (Or.inr (Or.inr (Or.inr (Or.inr (Or.inr (Or.inr (Or.inl ⟨_, _, rfl⟩))))))),
+   fun _ _ => step_fst_eq _ s (Or.inr (Or.inr (Or.inr (Or.inr (Or.inr (Or.inr (Or.inr ⟨_, _, rfl⟩)))))))⟩
+
+/-- C18 (h) `copy.copy` shares its children: the copy of a scenario / obstacle / planning problem IS the state (hidden caches
+    included), the copy of a lanelet network differs only in having an index of its own. -/
+theorem C18_shallow_copy_shares (s : St) (tgt : Target) :
+    (tgt ≠ .net → (step (.shallowCopy tgt) s).2 = .ok (.copy s)) ∧
+    (step (.shallowCopy .net) s).2 = .ok (.copy { s with net := { s.net with index := some s.net.lanelets } }) := by
+  constructor
+  · intro h
+    simp only [step, h, if_false]
+  · rfl
+
+/-- C18 (i) `obstacles_by_position_intervals`, `map_obstacles_to_lanelets`, `Lanelet.get_obstacles` and draw + render leave
+    the lanelet network (lanelets, registries, index) and the planning problems literally unchanged; the first three also
+    the traffic lights; all they do to the obstacles is fill occupancy caches (`C18_obs_frame`). -/
+theorem C18_occupancy_readers (s : St) :
+    (∀ t ins, (step (.byIntervals t ins) s).1.net = s.net ∧ (step (.byIntervals t ins) s).1.problems = s.problems ∧
+              (step (.byIntervals t ins) s).1.lights = s.lights) ∧
+    (∀ oids rel, (step (.mapObstacles oids rel) s).1.net = s.net ∧ (step (.mapObstacles oids rel) s).1.problems = s.problems ∧
+              (step (.mapObstacles oids rel) s).1.lights = s.lights) ∧
+    (∀ lid oids t rel, (step (.getObstacles lid oids t rel) s).1.net = s.net ∧
+              (step (.getObstacles lid oids t rel) s).1.problems = s.problems ∧ (step (.getObstacles lid oids t rel) s).1.lights = s.lights) ∧
+    (∀ p, (step (.draw p) s).1.net = s.net ∧ (step (.draw p) s).1.problems = s.problems) := by
+  refine ⟨fun _ _ => ⟨rfl, rfl, rfl⟩, fun _ _ => ⟨rfl, rfl, rfl⟩, fun _ _ _ _ => ⟨rfl, rfl, rfl⟩, ?_⟩
+  intro p
+  simp only [step]
+  split
+  · exact ⟨rfl, rfl⟩
+  · split <;> exact ⟨rfl, rfl⟩
+
+/-- the seeded `_harmonize_state_types` without the copy (`state_new = state`) writes the speed into the caller's state: a
+    state with heading and both velocity components, checked against a goal that constrains the velocity -/
+theorem C18_seeded_is_reached_without_copy :
+    let st : TState := ⟨3, false, [("position", some 0), ("orientation", some 1), ("velocity", some 2), ("velocity_y", some 3)]⟩
+    (isReachedNoCopy [["velocity"]] st [.ok true]).1 = { st with attrs := [("position", some 0), ("orientation", some 1), ("velocity", some (-1)), ("velocity_y", some 3)] } ∧
+    (isReached [["velocity"]] st [.ok true]).1 = st ∧ (isReached [["velocity"]] st [.ok true]).2 = .ok true := by decide
+
+/-- the seeded `dynamic_obstacle_by_time_step` with `setdefault` inserts the queried time step into the registry -/
+theorem C18_seeded_setdefault_inserts :
+    let l : Lanelet := { id := 100, cells := [], dynObs := [(1, [2])] }
+    (l.dynByTimeSetdefault 7).1.dynObs = [(1, [2]), (7, [])] ∧ (l.dynByTime 7).1 = l ∧ (l.dynByTime 1).2 = [2] := by decide
+
+/-- before the repair `merge_lanelets` wrote the second lanelet's obstacle ids into the first lanelet of the network -/
+theorem C18_unrepaired_merge_changes_network :
+    (mergePaths mergeRegsOld 100 [[101]] exampleLanelets).1 ≠ exampleLanelets ∧
+    (mergePaths mergeRegs 100 [[101]] exampleLanelets).1 = exampleLanelets ∧
+    (mergePaths mergeRegs 100 [[101]] exampleLanelets).2 = .ok [⟨[1], [(1, [2, 7]), (2, [2])]⟩] := by decide
+
+def exampleDraw : DrawP := { scenario := true, tb := 0, te := 3, drawOcc := true, drawIcon := false, iconIds := [], history := 0 }
 
 def exampleOps : List Op :=
-  [.occ 2 2, .occs 1 none, .findPos [0, 1], .light 400 5, .deepcopy, .writePb true, .writeXml true, .reads [2] [400], .pickle]
+  [.occ 2 2, .occs 1 none, .findPos [0, 1], .light 400 5, .deepcopy, .writePb true, .writeXml true, .reads [2] [400], .pickle,
+   .reached 900 (.obsTraj 2 1) [.ok true, .ok false], .goalReached 900 (.own 2) [[.ok false, .ok false], [.ok false, .ok true]], .reached 900 .probInit [.ok false, .ok false],
+   .eq .scenario, .hash (.obstacle 2), .shallowCopy .net, .byIntervals 1 [2], .findShape 5, .mapObstacles [1, 2] [(100, 2)],
+   .getObstacles 100 [2] 2 [(100, 2)], .dynByTime 100 7, .mergeFrom 100 [[101]], .draw exampleDraw]
 
 example : exampleSt.Inv := by
   refine ⟨?_, Or.inr rfl, ?_⟩
@@ -174,6 +260,7 @@ example : (run exampleOps exampleSt).obs = exampleSt.obs := C18_obs_frame_run _ 
 /-- answers are non-trivial: the occupancy at t = 2 comes from the second trajectory state with a computed heading -/
 example : (step (.occ 2 2) exampleSt).2 = .ok (.occ (some ⟨2, 2, .placed 6 13 (.atan2 15 14)⟩)) := by decide
 example : (step (.findPos [0, 1]) exampleSt).2 = .ok (.idss [[100], []]) := by decide
+example : (step (.findShape 5) exampleSt).2 = .ok (.ids [100]) := by decide
 example : (step (.light 400 5) exampleSt).2 = .ok (.nat 0) := by decide
 example : (step (.writeXml true) exampleSt).2 =
     .ok (.file ⟨[⟨1, [("position", 0), ("orientation", 1)], [], []⟩,
@@ -184,5 +271,14 @@ example : (step (.writeXml true) exampleSt).2 =
                 [(900, [[], []])]⟩) := by decide
 example : (step (.writePb true) exampleSt).2 = (step (.writePb true) (run exampleOps exampleSt)).2 :=
   ((C18_export_same exampleOps exampleSt true).2).symm
+
+example : (step (.reached 900 (.obsTraj 2 1) [.ok false, .ok true]) exampleSt).2 = .ok (.bool true) := by decide
+example : (step (.reached 900 (.obsInit 1) [.ok true, .ok true]) exampleSt).2 = .error .value := by decide
+example : (step (.reached 900 .probInit [.ok true, .ok false]) exampleSt).2 = .ok (.bool true) := by decide
+example : (step (.byIntervals 1 [2]) exampleSt).2 = .ok (.ids [2]) := by decide
+example : (step (.mapObstacles [1, 2] [(100, 2)]) exampleSt).2 = .ok (.mapping [(100, [2])]) := by decide
+example : (step (.dynByTime 101 1) exampleSt).2 = .ok (.ids [7]) := by decide
+/-- drawing with occupancies from t = 0 to 3 fills the occupancy cache of obstacle 2 and the cache of the light -/
+example : (step (.draw exampleDraw) exampleSt).1 ≠ exampleSt ∧ (step (.draw exampleDraw) exampleSt).2 = .ok .unit := by decide
 
 end CR.Frame
